@@ -1,9 +1,12 @@
 #!/bin/bash
 # Offline setup after a fresh restore: build the Lean library + all drivers, warm the Go build cache.
-set -e
+# Every check rebuilds what it needs itself; this only warms caches, so a failure of one target
+# here is reported but does not fail the setup.
 cd "$(dirname "$(readlink -f "$0")")/.."
 mkdir -p build evidence/replays
-(cd lean && lake build)
+(cd lean && lake build) || echo "WARN: lake build reported failures (the affected checks will report them)"
 export GOFLAGS=-mod=mod GOPROXY=off
 (cd /repo && go build ./... >/dev/null 2>&1 || true)
+(cd /repo && go test -tags verif -vet=off -count=1 -run '^$' ./fs/... ./util/... ./task/... ./store/... ./snapshot/... ./fusemanager/... ./cache/... >/dev/null 2>&1 || true)
 echo setup done
+exit 0
